@@ -145,7 +145,7 @@ class CGen(object):
         return rng.choice(UNDEF_NAMES)
 
     def const(self):
-        return self.rng.choice(['0', '1', '2', '3', '5', '10', "'k'", "'a'", "'abc'", 'None', 'True', 'False', "''"])
+        return self.rng.choice(['0', '1', '2', '3', '5', '10', '1', '2', '4', "'k'", "'a'", "'abc'", 'None', 'True', 'False', "''"])
 
     def seq(self, d):
         """something iterable"""
@@ -339,12 +339,14 @@ class CGen(object):
             r = rng.random() * 0.45 + 0.1
         if r < 0.10:
             return self.int_name() if rng.random() < 0.75 else self.const()
+        # operands of arithmetic / ordering are mostly int-valued (else nearly every case ends in a TypeError)
+        num = lambda: sub() if rng.random() < 0.35 else (self.int_name() if rng.random() < 0.8 else rng.choice(['0', '1', '2', '3', '7']))
         if r < 0.22:
-            return '(%s %s %s)' % (sub(), rng.choice(['+', '-', '*', '//', '%', '+', '-']), sub())
+            return '(%s %s %s)' % (num(), rng.choice(['+', '-', '*', '//', '%', '+', '-']), num())
         if r < 0.32:
             ops = ['<', '<=', '>', '>=', '==', '!=']
             n = rng.choice([1, 1, 2])
-            return '(' + sub() + ''.join(' %s %s' % (rng.choice(ops), sub()) for _ in range(n)) + ')'
+            return '(' + num() + ''.join(' %s %s' % (rng.choice(ops), num()) for _ in range(n)) + ')'
         if r < 0.37:
             return '(%s %s %s)' % (sub(), rng.choice(['in', 'not in']), rng.choice(['items', 'd', 's', 't', 'range(3)', self.seq(d + 1)]))
         if r < 0.40:
@@ -399,4 +401,67 @@ HAND_CEVAL = [
     ('[u for u, v in items]', {'items': [1]}), ('a < b < c', {'a': 1, 'b': 2, 'c': 3}), ('1 // 0', {}), ('a + "s"', {'a': 1}), ('items[1:]', {'items': [1, 2, 3]}),
     ('(lambda f: f(f))(lambda g: 1)', {}), ('{"k": a, "k": b}', {'a': 1, 'b': 2}), ('{[1]: 2}', {}), ('(*items, a)', {'items': [1], 'a': 0}),
     ('list(i for i in items)', {'items': [1, 2]}), ('(i for i in zz)', {}), ('range(3)', {}), ('True and None or 0', {}),
+]
+
+
+# --------------------------------------------------------------------------
+# the same expressions observed through templates
+
+def gen_template_cases(rng, n):
+    """MarkupTemplate sources that hand the value of an expression to the recorder `rec` (a context function):
+    A `${rec(E)}` in text;  B `py:with="v=E"` then `${rec(v)}`;  C `py:with="a=CONST; q=E"`: the with-variable shadows the
+    context name `a` inside E;  D `py:for="TARGET in SEQ"` with `${rec(E)}` in the body: loop targets (names, pairs) are
+    context names inside E.  `expr` / `bind` give the plain expression with the same meaning."""
+    from xml.sax.saxutils import escape, quoteattr
+    cases = []
+    g = CGen(rng)
+    while len(cases) < n:
+        g.bound, g.feat = [], set()
+        form = rng.choice('AABCDD')
+        bind = {}
+        if form == 'D':
+            if rng.random() < 0.35:
+                names, tgt, seq = ['u', 'v'], rng.choice(['u, v', '(u, v)']), 'rows'
+            else:
+                nm = rng.choice(['i', 'j', 'a', 'x', 'items'])
+                names, tgt = [nm], nm
+                seq = g.seq(2)
+            g.bound = list(names)
+            e = g.expr(1)
+            g.bound = []
+            src = '<x xmlns:py="http://genshi.edgewall.org/"><y py:for=%s>${rec(%s)}</y></x>' % (quoteattr('%s in %s' % (tgt, seq)), escape(e))
+            expr = '[%s for %s in %s]' % (e, tgt, seq)
+        else:
+            r = rng.random()
+            e = g.lam(1) if r < 0.3 else g.comp(1) if r < 0.55 else g.access(1) if r < 0.65 else g.expr(1)
+            expr = e
+            if form == 'A':
+                src = '<x>${rec(%s)}</x>' % escape(e)
+            elif form == 'B':
+                src = '<x xmlns:py="http://genshi.edgewall.org/" py:with=%s>${rec(v)}</x>' % quoteattr('v=' + e)
+            else:
+                nm = rng.choice(['a', 'x', 'items', 'n'])
+                val = rng.choice([0, 1, 4, [1, 2], [], 'k'])
+                bind = {nm: val}
+                src = '<x xmlns:py="http://genshi.edgewall.org/" py:with=%s>${rec(q)}</x>' % quoteattr('%s=%r; q=%s' % (nm, val, e))
+        try:
+            ast.parse(expr, mode='eval')
+        except SyntaxError:
+            continue
+        if len(src) > 500 or '$' in expr:
+            continue
+        cases.append({'kind': 'tmpl', 'form': form, 'src': src, 'expr': expr, 'bind': bind, 'lookup': rng.choice(['strict', 'lenient']),
+                      'data': rand_cdata(rng), 'feat': sorted(g.feat)})
+    return cases
+
+
+HAND_TMPL = [
+    ('A', '<x>${rec([x for x in x])}</x>', '[x for x in x]', {}, {'x': [1, 2]}),
+    ('A', '<x>${rec((lambda a=a: a)())}</x>', '(lambda a=a: a)()', {}, {'a': 5}),
+    ('A', '<x>${rec((lambda *, lo=0, hi=10, x: (lo, hi, x))(lo=1, x=5))}</x>', '(lambda *, lo=0, hi=10, x: (lo, hi, x))(lo=1, x=5)', {}, {}),
+    ('B', '<x xmlns:py="http://genshi.edgewall.org/" py:with="v=d.k">${rec(v)}</x>', 'd.k', {}, {'d': {'$dict': [['k', 1]]}}),
+    ('C', '<x xmlns:py="http://genshi.edgewall.org/" py:with="a=4; q=[a for i in items]">${rec(q)}</x>', '[a for i in items]', {'a': 4}, {'a': 1, 'items': [1, 2]}),
+    ('D', '<x xmlns:py="http://genshi.edgewall.org/"><y py:for="u, v in rows">${rec(u + v)}</y></x>', '[u + v for u, v in rows]', {}, {'rows': [[1, 2], {'$tuple': [3, 4]}]}),
+    ('D', '<x xmlns:py="http://genshi.edgewall.org/"><y py:for="i in items">${rec((lambda q=i: q + a)())}</y></x>', '[(lambda q=i: q + a)() for i in items]', {}, {'items': [1, 2], 'a': 10}),
+    ('A', '<x>${rec(zz)}</x>', 'zz', {}, {}), ('A', '<x>${rec(o.zz)}</x>', 'o.zz', {}, {'o': {'$obj': {}}}),
 ]
